@@ -235,3 +235,34 @@ contract(F + "ShuffleContinuumSampler.sample_from_continuum",
                 ("after", "rnd_annotator = ...", "GA = store(GA, idx, rnd_annotator)"),
                 ("after", "rnd_annotator = ...", "PIV = store(PIV, idx, pivot)")],
          serves={"C16", "C05", "C14"})
+
+# =========================================================================================================
+# StatisticalContinuumSampler: the measured parameters are the reference's statistics  (C15, "with the reference's statistics")
+# =========================================================================================================
+from .continuum import ITER_MACROS   # noqa: E402
+STAT_MACROS = ITER_MACROS + [Macro("ref", [], "some(self._reference_continuum)")]
+
+contract(F + "StatisticalContinuumSampler._set_nb_units_information",
+         params={"self": STAT()}, modifies=["self._avg_nb_units_per_annotator", "self._std_nb_units_per_annotator"], macros=STAT_MACROS,
+         requires=["not isnone(self._reference_continuum)", "Nkeys(ref()) >= 1"],
+         ghost_vars={"NB": ("AInt", None)},
+         ensures=[cl("forall(k, 0, Nkeys(ref()), NB[k] == Cnt(ref())[Kseq(ref())[k]])", "C15", name="one-count-per-annotator-of-the-reference"),
+                  cl("self._avg_nb_units_per_annotator == rpsum(lam(k, toreal(NB[k])), Nkeys(ref())) / Nkeys(ref())", "C15",
+                     name="mean-number-of-units-per-annotator"),
+                  cl("self._std_nb_units_per_annotator == npstd(lam(k, toreal(NB[k])), Nkeys(ref()))", "C15",
+                     name="standard-deviation-of-the-same-counts")],
+         hooks=[("after", "nb_units = ...", "NB = raw(nb_units)"),
+                ("after", "nb_units = ...", "model_inv wfmap(ref())")],
+         serves={"C15"})
+
+contract(F + "StatisticalContinuumSampler._set_duration_information",
+         params={"self": STAT()}, modifies=["self._avg_unit_duration", "self._std_unit_duration"], macros=STAT_MACROS,
+         requires=["not isnone(self._reference_continuum)", "RI(ref())", "NumUnits(ref()) >= 1"],
+         ghost_vars={"DU": ("AReal", None)},
+         ensures=[cl("forall([(a, Real), (u, Unit)], implies(Us(ref())[a][u], DU[flat(ref(), a, u)] == u.e - u.s))", "C15",
+                     name="one-duration-per-unit-of-the-reference-in-iteration-order"),
+                  cl("self._avg_unit_duration == rpsum(DU, NumUnits(ref())) / NumUnits(ref())", "C15", name="mean-unit-duration"),
+                  cl("self._std_unit_duration == npstd(DU, NumUnits(ref()))", "C15", name="standard-deviation-of-the-same-durations")],
+         hooks=[("after", "durations = ...", "DU = raw(durations)"),
+                ("after", "durations = ...", "model_inv wfmap(ref())")],
+         serves={"C15"})
